@@ -210,6 +210,36 @@ def pAddrMatch : P String := do
   let f := fw ++ fb ++ fd
   pure (if f.isEmpty then "ok" else "fail" ++ f)
 
+open VelaVerif.WeightSpec in
+/-- `wl_stripe ncores fullDepth c0 c1 wbase hasBuf buf nW wranges.. sep sbase nS sranges.. nWA (a l).. nBA (a l)..` :
+    Spec on what one emitted NPU operation addresses: channel cover of the stripe and the address ranges -/
+def pStripe : P String := do
+  let ncores ← pNat; let fullDepth ← pNat; let c0 ← pNat; let c1 ← pNat
+  let wbase ← pNat; let hasBuf ← pBool; let buf ← pNat
+  let wr ← pList pARange
+  let sep ← pBool; let sbase ← pNat
+  let sr0 ← pList pARange
+  let ws ← pList (do let a ← pNat; let l ← pNat; pure (a, l))
+  let bs ← pList (do let a ← pNat; let l ← pNat; pure (a, l))
+  pEnd
+  let sr := if sep then sr0 else wr
+  let cover := decide (StripeCoverOk ncores fullDepth wr sr c0 c1)
+  let (ew, eb, _) := expectedAddrs wbase (if hasBuf then some buf else none) wr c0
+  let ebs := if sep then (expectedAddrs sbase none sr c0).2.1 else eb
+  let f := (if cover then "" else " cover") ++ (if ws == ew then "" else " weights") ++ (if bs == ebs then "" else " scales")
+  pure (if f.isEmpty then "ok" else "fail" ++ f)
+
+open VelaVerif.WeightSpec in
+/-- `wl_dma base buf depth nR ranges.. sa sl da dl` : an emitted weight DMA moves exactly the bytes of the slice -/
+def pDma : P String := do
+  let base ← pNat; let buf ← pNat; let depth ← pNat
+  let rs ← pList pARange
+  let sa ← pNat; let sl ← pNat; let da ← pNat; let dl ← pNat
+  pEnd
+  match (expectedAddrs base (some buf) rs depth).2.2 with
+  | some (s, d) => pure (if s == (sa, sl) ∧ d == (da, dl) then "ok" else s!"fail dma expected {s.1}:{s.2}->{d.1}:{d.2}")
+  | none => pure "fail dma-no-core0-range"
+
 /-! #### wl_cache : outcome (miss / hit / weights-only hit) of a request sequence -/
 
 def pReqKeys : P Req := do
@@ -275,6 +305,8 @@ def handle : List String → Option String
   | "wl_addr" :: rest => some ((run pAddr rest).getD "err:parse")
   | "wl_addrspec" :: rest => some ((run pAddrSpec rest).getD "err:parse")
   | "wl_addrmatch" :: rest => some ((run pAddrMatch rest).getD "err:parse")
+  | "wl_stripe" :: rest => some ((run pStripe rest).getD "err:parse")
+  | "wl_dma" :: rest => some ((run pDma rest).getD "err:parse")
   | "wl_cache" :: rest => some ((run pCache rest).getD "err:parse")
   | "wl_same" :: rest => some ((run pSame rest).getD "err:parse")
   | "wl_reqdiff" :: rest => some ((run pReqDiff rest).getD "err:parse")
